@@ -332,7 +332,7 @@ func (x *Exec) hookAfter(st *State, fr *Frame, kind, key string, args []Val, ret
 		for _, c := range h.Assumes {
 			g, err := env.EvalBool(c.Expr)
 			if err != nil {
-				x.errorf("%s:%d: %v", c.File, c.Line, err)
+				st.unbound("mon", "assume@"+h.Kind+" "+h.Pattern, x.safetyProps(), pos, c.Expr, err)
 				continue
 			}
 			st.Assume(g)
@@ -363,14 +363,14 @@ func (x *Exec) bindResults(env *Env, ret Val) {
 func (x *Exec) ghostAssign(st *State, env *Env, name, expr string, h *CallHook) {
 	v, err := env.EvalVal(expr)
 	if err != nil {
-		x.errorf("ghost update %s: %v", name, err)
+		st.unbound("mon", "do "+name+"@"+h.Kind+" "+h.Pattern, x.safetyProps(), token.NoPos, "do "+name+" = "+expr, err)
 		return
 	}
 	if i := strings.Index(name, "["); i > 0 && strings.HasSuffix(name, "]") {
 		base := name[:i]
 		kv, err := env.EvalVal(name[i+1 : len(name)-1])
 		if err != nil {
-			x.errorf("ghost update %s: %v", name, err)
+			st.unbound("mon", "do "+name+"@"+h.Kind+" "+h.Pattern, x.safetyProps(), token.NoPos, "do "+name+" = "+expr, err)
 			return
 		}
 		g, ok := st.Ghost[base]
@@ -461,13 +461,13 @@ func (x *Exec) callByContract(st *State, fr *Frame, fc *FuncContract, ci calleeI
 	calleeShort := x.stripOwnPkg(ci.key)
 	for i, c := range fc.Requires {
 		g, err := env.EvalBool(c.Expr)
-		if err != nil {
-			x.errorf("%s:%d: %v", c.File, c.Line, err)
-			continue
-		}
 		lbl := c.Label
 		if lbl == "" {
 			lbl = fmt.Sprintf("r%d", i+1)
+		}
+		if err != nil {
+			st.unbound("pre", calleeShort+":"+lbl, propsOr(c.Props, propsOr(x.safetyProps(), fc.Props)), pos, c.Expr, err)
+			continue
 		}
 		st.oblige("pre", calleeShort+":"+lbl, g, pos, c.Expr, propsOr(c.Props, propsOr(x.safetyProps(), fc.Props)))
 		st.assumeAfter("pre", calleeShort+":"+lbl, g)
